@@ -16,6 +16,8 @@
     loadserial <oid> <tid>            → <rec> | none
     hist <oid>                        → [tid,…]                  newest first (own history + base)
     revs <oid>                        → [tid:base:resolved,…]
+    undotxn <tid> <oid> <undone>      → ok <rec> [calls] | err:Undo [calls]   (undo transaction of one
+                                      object decided by `undoRecord` from the model's own history)
     lock                              → <t> | free
     undo <tid> <oid> <ctid> <undone> <pre> <cur>  → ok <rec> [calls] | err:Undo [calls]
                                       (a whole undo transaction of one object through undoResolve)
@@ -322,6 +324,26 @@ def srStep (d : DState) (toks : List String) : DState × String :=
         | .error _ =>
           ({ d with sys := { d.sys with cache := r.cache } }, "err:Undo" ++ callsStr r.call.toList)
     | _, _, _, _, _, _ => (d, "bad-op")
+  | ["undotxn", tid, oid, undone] =>
+    -- one whole undo transaction for a single object, decided from the model's own history
+    -- (`undoRecord` = `_transactionalUndoRecord`)
+    match tid.toNat?, oid.toNat?, undone.toNat? with
+    | some tid, some oid, some undone =>
+      if d.sys.lock.isSome then (d, "blocked")
+      else
+        let r := undoRecord (envOf d.classes) d.sys.kind d.sys.hist d.sys.base d.sys.cache oid undone
+        let ct := (curK d.sys.kind d.sys.hist d.sys.base oid).getD 0
+        let commit (rec : Record) (res : Bool) : DState :=
+          let t : Txn := { tid := tid, recs := [{ oid := oid, base := ct, data := rec, wanted := rec,
+                                                   resolved := res }], checked := [] }
+          { d with sys := { d.sys with cache := r.cache, hist := t :: d.sys.hist } }
+        match r.out with
+        | .copy rec => (commit rec false, "ok " ++ recStr rec)
+        | .merged rec => (commit rec true, "ok " ++ recStr rec ++ callsStr r.call.toList)
+        | .uncreate => ({ d with sys := { d.sys with cache := r.cache } }, "ok uncreated")
+        | .undoError =>
+          ({ d with sys := { d.sys with cache := r.cache } }, "err:Undo" ++ callsStr r.call.toList)
+    | _, _, _ => (d, "bad-op")
   | _ => (d, "bad-op")
 
 def main : IO Unit := driverLoop srStep ({ sys := init (.simple .file) [], classes := [] } : DState)
